@@ -34,7 +34,7 @@ VMETHODS = ["as_boolean", "as_bytes", "as_date", "as_datetime", "as_float", "as_
             "head", "tail", "map", "range", "rank", "replace_na", "sample", "sort", "sort_desc", "unique", "to_strings", "tolist_roundtrip",
             "is_na", "dt.year", "dt.replace", "re.sub", "str.upper", "equal", "rank_ordinal", "getitem_slice_copy",
             "dt.replace_nothing", "dt.replace_none", "re.sub_nomatch", "replace_na_noop", "head_all", "tail_all",
-            "construct_from_array", "construct_from_vector", "column_from_array", "frame_from_array", "setitem_array"]
+            "construct_from_array", "construct_from_vector", "column_from_array", "frame_from_array", "setitem_array", "geojson_to_data_frame"]
 
 def generate(rng, tier):
     if rng.random() < 0.45:
@@ -98,6 +98,12 @@ def execute(case):
         elif m == "construct_from_vector": out = di.Vector(vec)
         elif m == "column_from_array": out = di.DataFrameColumn(np.asarray(vec))
         elif m == "frame_from_array": out = dict.__getitem__(di.DataFrame(x=np.asarray(vec)), "x")
+        elif m == "geojson_to_data_frame":
+            # a conversion returns a new object: the plain data frame made of a GeoJSON holds its own columns
+            gj = di.GeoJSON(x=np.asarray(vec).copy(), geometry=[None] * len(values))
+            out = dict.__getitem__(gj.to_data_frame(), "x")
+            if len(values) and np.shares_memory(np.asarray(out), np.asarray(dict.__getitem__(gj, "x"))):
+                res.violate("geojson.to_data_frame:result-aliases-receiver", f"GeoJSON.to_data_frame on {kind} {canon.short(values)} returns columns shared with the GeoJSON")
         elif m == "setitem_array":
             fr = di.DataFrame()
             fr["x"] = np.asarray(vec)
